@@ -46,7 +46,7 @@ def shards(tier, seed):
 
 
 HN = ["sha1", "sha224", "sha256", "sha384", "sha512", "sha3_256", "md5", "blake2b_4", "blake2b_5", "blake2b_13", "blake2b_20", "blake2b_21",
-      "blake2b_32", "blake2b_33", "blake2b_47", "blake2b_64", "blake2b_person", "blake2s_salt", "blake2b_keyed32", "prefixed_sha256", "sha3_384", "lambda_sha1"]
+      "blake2b_32", "blake2b_33", "blake2b_47", "blake2b_64", "blake2b_person", "blake2s_salt", "blake2b_keyed32", "prefixed_sha256", "sha3_384", "lambda_sha1", "tinyblock"]
 
 
 def check_k(ctx, n, d, hname, digest, retry, extra, cls):
